@@ -1202,6 +1202,12 @@ func Generate(profile string, seed uint64, idx int, maxOps, maxSess int) *Scenar
 		if (base == "rpc" || base == "mixed") && g.chance(0.02) {
 			g.tplSharedOptions()
 		}
+		if g.chance(0.012) {
+			// HELLO for a realm that does not exist and cannot be created
+			// (with and without a realm template): ABORT, no other effect
+			g.sc.Ops = append(g.sc.Ops, Op{Kind: "badjoin", Realm: 0, Sess: 0, Hello: Dict(KV{"roles", Dict(KV{"subscriber", feat(map[string]bool{})}, KV{"caller", feat(map[string]bool{})})})})
+			g.tag("hello-impossible-realm")
+		}
 		if realms > 1 && g.chance(0.01) {
 			// AddRealm with the URI of a live realm: must be refused without effect
 			live := g.r.IntN(realms)
